@@ -126,7 +126,18 @@ class SymPattern:
     def search(self, s, pos=0):
         if not isinstance(s, SStr):
             return self.real.search(s, pos)
-        raise Unmodelled("regex search on symbolic string")
+        for start in range(pos, len(s.c) + 1):
+            for end, groups in self._m(list(self.tree), s, start, {}):
+                return Match(s, start, end, groups, dict(self.groupindex), self.groups)
+        return None
+
+    def fullmatch(self, s, pos=0):
+        if not isinstance(s, SStr):
+            return self.real.fullmatch(s, pos)
+        for end, groups in self._m(list(self.tree), s, pos, {}):
+            if end == len(s.c):
+                return Match(s, pos, end, groups, dict(self.groupindex), self.groups)
+        return None
 
     def _m(self, items, s, i, groups):
         if not items:
@@ -143,6 +154,11 @@ class SymPattern:
                     yield from self._m(rest, s, i, groups)
             elif av is sc.AT_END:
                 if i == n or (i == n - 1 and char_in(s, i, frozenset([10]))):
+                    yield from self._m(rest, s, i, groups)
+            elif av in (sc.AT_BOUNDARY, sc.AT_NON_BOUNDARY):
+                before = i > 0 and char_in(s, i - 1, WORDSET)
+                after = i < n and char_in(s, i, WORDSET)
+                if (before != after) == (av is sc.AT_BOUNDARY):
                     yield from self._m(rest, s, i, groups)
             else:
                 raise Unmodelled(f"regex anchor {av}")
@@ -188,8 +204,36 @@ class SymPattern:
         elif op is sc.BRANCH:
             for alt in av[1]:
                 yield from self._m(list(alt) + rest, s, i, groups)
+        elif op in (sc.ASSERT, sc.ASSERT_NOT):
+            direction, sub = av
+            if direction < 0:
+                raise Unmodelled("regex lookbehind")
+            found = False
+            for _e2, g2 in self._m(list(sub), s, i, groups):
+                found = True
+                hit = g2
+                break
+            if op is sc.ASSERT and found:
+                yield from self._m(rest, s, i, hit)
+            elif op is sc.ASSERT_NOT and not found:
+                yield from self._m(rest, s, i, groups)
+        elif op is sc.GROUPREF:
+            if av in groups:
+                a, b = groups[av]
+                k = b - a
+                if i + k <= n and (k == 0 or bool(mk_eq(s, i, a, k))):
+                    yield from self._m(rest, s, i + k, groups)
         else:
             raise Unmodelled(f"regex op {op}")
+
+
+WORDSET = frozenset(c for c in range(256) if chr(c).isalnum() or c == 95)
+
+
+def mk_eq(s, i, a, k):
+    from .values import mkstr
+
+    return mkstr(s.c[i: i + k]) == mkstr(s.c[a: a + k])
 
 
 class SymRe:
@@ -209,8 +253,10 @@ class SymRe:
 
 def selftest():
     """Differential test of the matcher against `re` on concrete strings (run at start-up)."""
-    pats = [r"^\[0x(?P<byte>[0-9a-fA-F]+)]", r"(?P<byte>[0-9a-fA-F]+)(?::(?P<ignore>[0-9a-fA-F]+))?\s*=(?P<text>[^\n]+)", r"a*b+?c{1,2}(x|yz)$"]
-    vecs = ["[0x1F]a", "[0x]", "[0xg1]", "x[0x11]", "[0x123]zz", "[0xab", "01=a", "0203:1 =bc\n", "=", "aabbcx", "bccyz", "abcx ", "bc"]
+    pats = [r":(?!=)", r"[ \t]*(?:[;\n\0]|\Z)", r"(a|b)\1x", r"\bab\b ?c", r"a(?=b)b",
+            r"^\[0x(?P<byte>[0-9a-fA-F]+)]", r"(?P<byte>[0-9a-fA-F]+)(?::(?P<ignore>[0-9a-fA-F]+))?\s*=(?P<text>[^\n]+)", r"a*b+?c{1,2}(x|yz)$"]
+    vecs = [":=", ": ", ":", "  ;x", " \t", " x", "aax", "abx", "bbx", "ab c", "abc", "ab", "ac",
+            "[0x1F]a", "[0x]", "[0xg1]", "x[0x11]", "[0x123]zz", "[0xab", "01=a", "0203:1 =bc\n", "=", "aabbcx", "bccyz", "abcx ", "bc"]
     for p in pats:
         real = re.compile(p)
         sym = SymPattern(real)
